@@ -278,9 +278,17 @@ void vf_case(vf::Ctx& c) {
         se::EncOpts eo;
         eo.max_content = 96u << 10;
         eo.allow_mt = false;
+        if (t.chance(25)) eo.max_content = 300u << 10;   // several full blocks, literal sections beyond 64 KiB with room after them
         se::EncResult er = se::gen_stream(c, cx.c, eo);
         bytes = er.out;
         k.magicless = er.magicless;
+        // capacities just below / at / above what the stream regenerates: the decoder's own space accounting is on its edge
+        if (!er.frames.empty() && t.chance(40)) {
+            size_t total = er.frames.back().dEnd;
+            size_t d = (size_t)t.pick<size_t>({0, 1, 2, 7, 31, 32, 33, 100, 1000, 4096, 40000});
+            k.cap = t.chance(80) ? (total > d ? total - d : 0) : total + d;
+            c.label("capacity_near_regenerated_size");
+        }
         if (const char* dd = getenv("VF_DUMP_CORPUS")) {
             if (bytes.size() <= 3000 && !er.magicless) {
                 char nm[256]; snprintf(nm, sizeof nm, "%s/g-%016llx", dd, (unsigned long long)vf::fnv64(bytes.data(), bytes.size()));
